@@ -23,6 +23,15 @@ behaviour-preserving refactoring, so this module decides equality in the field
   names through the module's imports (`units._e`, `from ase.units import _e as q` -> `ase.units._e`).
   A name with several reaching definitions, an unknown call or a non-constant exponent is outside
   the term language => AnalysisError, never a guess.
+* function atoms: a call `f(x)` of a one-argument numpy / math function that is not part of the ring
+  language (arctan, tan, sin, exp, abs ...) is carried as an opaque atom `f(<normal form of x>)`
+  (`Radicals.apply`, deduplicated by equality of the argument).  Two terms with identical normal
+  forms are equal whatever `f` is.  "different" is decided only on a theorem: when `f` is one of the
+  elementary transcendental functions and its argument is a non-constant rational function of the
+  other atoms, `f(x)` is transcendental over the field of rational functions, so a non-zero rational
+  expression in ONE such atom is a non-zero function.  Everything else (two function atoms, nested
+  ones, radicals next to them, an unknown `f`) is "undecided".  `linear_in` decides with the same
+  theorem whether a term is <atom> times a factor that does not depend on <atom>.
 
 Nothing here imports or executes analysed code; numeric evaluation is of the normal forms only.
 """
@@ -159,9 +168,75 @@ def _cancel(num: Poly, den: Poly) -> tuple[Poly, Poly]:
     return div(num, lead), div(den, lead)
 
 
+# one-argument functions that are transcendental over the rational functions when composed with a
+# non-constant rational argument, with the numeric function used for sign evaluation of normal forms
+TRANSCENDENTAL: dict[str, Callable[[float], float]] = {
+    "arctan": math.atan, "tan": math.tan, "sin": math.sin, "cos": math.cos, "arcsin": math.asin,
+    "arccos": math.acos, "exp": math.exp, "log": math.log, "sinh": math.sinh, "cosh": math.cosh,
+    "tanh": math.tanh, "arcsinh": math.asinh, "arctanh": math.atanh, "expm1": math.expm1, "log1p": math.log1p,
+    "sinc": lambda v: math.sin(math.pi * v) / (math.pi * v),
+}
+_OTHER_NUMERIC: dict[str, Callable[[float], float]] = {"abs": abs}
+FUNCTION_ALIASES = {"atan": "arctan", "asin": "arcsin", "acos": "arccos", "asinh": "arcsinh", "atanh": "arctanh",
+                    "absolute": "abs", "fabs": "abs"}
+FUNCTION_MODULES = ("numpy.", "math.", "cmath.", "xp.", "cupy.", "scipy.special.")
+
+
 class Radicals:
     def __init__(self) -> None:
         self.table: list[RF] = []
+        self.funcs: dict[str, tuple[str, RF]] = {}
+
+    # ---- function atoms f(<normal form>)
+    def apply(self, name: str, arg: "RF") -> "RF":
+        name = FUNCTION_ALIASES.get(name, name)
+        arg = reduce_radicals(arg, self)
+        for atom, (n2, a2) in self.funcs.items():
+            if n2 == name and a2.equals(arg):
+                return RF.atom(atom)
+        atom = f"{name}({self.describe(arg)})"
+        self.funcs[atom] = (name, arg)
+        return RF.atom(atom)
+
+    def is_function(self, atom: str) -> bool:
+        return atom in self.funcs
+
+    def function(self, atom: str) -> tuple[str, "RF"]:
+        return self.funcs[atom]
+
+    def function_atoms(self, x: "RF", deep: bool = True) -> set[str]:
+        """Function atoms of x; with `deep` also those inside arguments and radicands."""
+        out: set[str] = set()
+        todo, seen = list(x.atoms()), set()
+        while todo:
+            a = todo.pop()
+            if a in seen:
+                continue
+            seen.add(a)
+            if self.is_function(a):
+                out.add(a)
+                if deep:
+                    todo.extend(self.funcs[a][1].atoms())
+            elif deep and self.is_radical(a):
+                todo.extend(self.radicand(a).atoms())
+        return out
+
+    def deep_atoms(self, x: "RF") -> set[str]:
+        """Plain atoms (neither radical nor function) of x, through radicands and function arguments."""
+        out: set[str] = set()
+        todo, seen = list(x.atoms()), set()
+        while todo:
+            a = todo.pop()
+            if a in seen:
+                continue
+            seen.add(a)
+            if self.is_function(a):
+                todo.extend(self.funcs[a][1].atoms())
+            elif self.is_radical(a):
+                todo.extend(self.radicand(a).atoms())
+            else:
+                out.add(a)
+        return out
 
     def sqrt(self, x: RF) -> RF:
         c = x.const_value()
@@ -251,6 +326,14 @@ def _eval_at(x: RF, rad: Radicals, val: Callable[[str], float], depth: int = 0) 
                 cache[a] = math.sqrt(v) if v is not None and v > 0 else None
             elif a == PI:
                 cache[a] = math.pi
+            elif rad.is_function(a):
+                name, arg = rad.function(a)
+                fn = TRANSCENDENTAL.get(name) or _OTHER_NUMERIC.get(name)
+                v = _eval_at(arg, rad, val, depth + 1) if fn is not None else None
+                try:
+                    cache[a] = fn(v) if v is not None else None  # type: ignore[misc]
+                except (ValueError, OverflowError, ZeroDivisionError):
+                    cache[a] = None
             else:
                 cache[a] = val(a)
         return cache[a]
@@ -289,6 +372,8 @@ def decide_equal(a: RF, b: RF, rad: Radicals) -> str:
     ra, rb = reduce_radicals(a, rad), reduce_radicals(b, rad)
     if ra.equals(rb):
         return "equal"
+    if rad.function_atoms(ra) or rad.function_atoms(rb):
+        return _decide_with_functions(ra, rb, rad)
     if not rad.has_radicals(ra) and not rad.has_radicals(rb):
         return "different"
     sa, sb = reduce_radicals(ra * ra, rad), reduce_radicals(rb * rb, rad)
@@ -300,6 +385,96 @@ def decide_equal(a: RF, b: RF, rad: Radicals) -> str:
     if s1 is None or s2 is None:
         return "undecided"
     return "equal" if s1 == s2 else "different"
+
+
+def subst_rf(x: RF, mapping: dict[str, RF], rad: Radicals) -> RF:
+    """x with plain atoms replaced (also inside radicands and function arguments)."""
+    memo: dict[str, RF] = {}
+
+    def atom_rf(a: str) -> RF:
+        if a not in memo:
+            if rad.is_function(a):
+                name, arg = rad.function(a)
+                memo[a] = rad.apply(name, subst_rf(arg, mapping, rad))
+            elif rad.is_radical(a):
+                memo[a] = rad.sqrt(subst_rf(rad.radicand(a), mapping, rad))
+            else:
+                memo[a] = mapping.get(a, RF.atom(a))
+        return memo[a]
+
+    def poly(p: Poly) -> RF:
+        out = RF.const(0)
+        for mono, c in p.terms.items():
+            t = RF.const(c)
+            for a, e in mono:
+                if e.denominator != 1 or e < 0:
+                    raise AnalysisError("term with a non-integer power")
+                t = t * atom_rf(a).pow_int(int(e))
+            out = out + t
+        return out
+
+    return poly(x.num) / poly(x.den)
+
+
+def depends_on(x: RF, atom: str, rad: Radicals) -> bool:
+    """Does the rational function x (no radicals, no function atoms) vary with `atom`?  A rational function that
+    is invariant under atom -> 2·atom is constant in it (its zeros and poles would be scale invariant)."""
+    if atom not in x.atoms():
+        return False
+    return not subst_rf(x, {atom: RF.const(2) * RF.atom(atom)}, rad).equals(x)
+
+
+def _transcendental_atom(atom: str, rad: Radicals) -> bool:
+    """`atom` = f(arg) with f elementary transcendental and arg a non-constant rational function of plain
+    atoms: such a function is transcendental over the field of rational functions of the plain atoms."""
+    name, arg = rad.function(atom)
+    if name not in TRANSCENDENTAL or rad.has_radicals(arg) or rad.function_atoms(arg):
+        return False
+    return any(a != PI and depends_on(arg, a, rad) for a in arg.atoms())
+
+
+def _decide_with_functions(ra: RF, rb: RF, rad: Radicals) -> str:
+    d = ra - rb  # not identically zero as a formal expression (the caller compared the normal forms)
+    top = rad.function_atoms(d, deep=False)
+    if rad.has_radicals(d) or rad.function_atoms(d) != top:
+        return "undecided"
+    if not top:
+        return "different"  # the function atoms cancel: a non-zero rational function of the plain atoms
+    if len(top) == 1 and _transcendental_atom(next(iter(top)), rad):
+        return "different"  # non-zero rational expression in one transcendental element
+    return "undecided"
+
+
+def linear_in(body: RF, atom: str, rad: Radicals) -> str:
+    """Is `body` = atom · c with c independent of `atom`?  -> "linear" | "nonlinear" | "undecided".
+
+    Homogeneity at one scale, body(2·atom) = 2·body(atom), is equivalent to linearity for rational functions and
+    for rational functions with square roots (body/atom would be an algebraic function whose zeros, poles and
+    branch points are invariant under scaling).  With a function atom the homogeneity identity relates two
+    different function atoms and is not decided here; instead: if exactly one transcendental function atom whose
+    argument varies with `atom` survives in the normal form of `body`, then body = atom · c would be an algebraic
+    relation for a transcendental element, so `body` is not linear."""
+    body = reduce_radicals(body, rad)
+    two = RF.const(2)
+    doubled = reduce_radicals(subst_rf(body, {atom: two * RF.atom(atom)}, rad), rad)
+    if doubled.equals(two * body):
+        return "linear"
+    funcs = rad.function_atoms(body)
+    if not funcs:
+        res = decide_equal(doubled, two * body, rad)
+        return {"equal": "linear", "different": "nonlinear"}.get(res, "undecided")
+    top = rad.function_atoms(body, deep=False)
+    if funcs != top or rad.has_radicals(body):
+        return "undecided"
+    varying = [t for t in top if atom in rad.deep_atoms(RF.atom(t))]
+    if len(top) == 1 and len(varying) == 1 and _transcendental_atom(varying[0], rad):
+        t = varying[0]
+        arg = rad.function(t)[1]
+        genuinely = not body.equals(RF(body.num.subst({t: Poly.atom(t) + Poly.const(1)}),
+                                       body.den.subst({t: Poly.atom(t) + Poly.const(1)})))
+        if depends_on(arg, atom, rad) and genuinely:
+            return "nonlinear"
+    return "undecided"
 
 
 # ---------------------------------------------------------------------- AST -> RF
@@ -508,6 +683,10 @@ class TermEval:
                 return RF.atom(self.opaque_key(tgt, n, fr, at))
             bound = self.bind(n, tgt, fr, at)
             return self._guarded(lambda: self.eval_function(tgt, bound))
+        if tgt is None and len(n.args) == 1 and not n.keywords and not isinstance(n.args[0], ast.Starred) and (
+                canon.startswith(FUNCTION_MODULES) or canon == "abs"):
+            # a one-argument library function outside the ring language: opaque function atom f(<normal form>)
+            return self.rad.apply(canon.rsplit(".", 1)[-1], self.ev(n.args[0], fr, at))
         raise AnalysisError(f"call to `{canon}` is outside the term language")
 
     def opaque_key(self, tgt: FuncInfo, n: ast.Call, fr: _Frame, at: int) -> str:
